@@ -74,7 +74,44 @@ pub fn first_loss(input: &[Tok], out: &[Tok]) -> Option<(&'static str, String)> 
 
 struct Acc { col: Collector, evals: u64, accepted: u64, rejected: u64, inlang: u64, buckets: std::collections::HashSet<String>, samples: Vec<Value> }
 
-pub fn judge(mt: &str, m: &Mutant, order: u64, a: &mut Collector, _base_text: &str) -> (&'static str, bool) {
+/// the set of object-key paths of the JSON of the parsed fields (array indices and null values ignored)
+fn key_paths(v: &Value, path: &str, out: &mut std::collections::BTreeSet<String>) {
+    match v {
+        Value::Object(o) => for (k, x) in o { if x.is_null() { continue; } let p = format!("{path}/{k}"); out.insert(p.clone()); key_paths(x, &p, out); },
+        Value::Array(a) => for x in a { key_paths(x, &format!("{path}[]"), out); },
+        _ => {}
+    }
+}
+fn parsed_keys(mt: &str, block4: &str) -> Option<std::collections::BTreeSet<String>> {
+    let full = spec::envelope(mt, block4);
+    with_mt!(mt, T => {
+        match guarded(|| SwiftParser::parse::<T>(&full).ok().and_then(|p| serde_json::to_value(&p.fields).ok())) {
+            Ok(Some(j)) => { let mut s = std::collections::BTreeSet::new(); key_paths(&j, "", &mut s); Some(s) }
+            _ => None,
+        }
+    }, else => None)
+}
+
+pub fn judge(mt: &str, m: &Mutant, order: u64, a: &mut Collector, base_text: &str) -> (&'static str, bool) {
+    if m.kind == MutKind::BlankLine {
+        // the text has the same fields as the base; if it is accepted, the parsed message must expose the same
+        // fields (a field absorbed into the content of its predecessor reproduces the same text, so the
+        // output comparison below cannot see it)
+        let text = tok::render_lf(&m.toks);
+        return match (parsed_keys(mt, &text), parsed_keys(mt, base_text)) {
+            (Some(got), Some(want)) => {
+                if let Some(lost) = want.iter().find(|k| !got.contains(*k)) {
+                    let prev = m.at.and_then(|p| m.toks.get(p.wrapping_sub(1))).map(|t| t.tag.clone()).unwrap_or_default();
+                    let lost_tag = lost.rsplit('/').next().unwrap_or("").to_string();
+                    a.add(format!("C01/MT{mt}/absorbed-after-blank-line/{}~{}", lost_tag.chars().take_while(|c| c.is_ascii_alphanumeric()).collect::<String>(), prev), order,
+                        || format!("accepted; the parsed message no longer has {lost} (present without the blank line)"), || json!({"mt": mt, "mutation": m.desc, "block4": text}));
+                    ("accepted-lossy", false)
+                } else { ("accepted-preserved", false) }
+            }
+            (None, _) => ("rejected", false),
+            (Some(_), None) => ("accepted-preserved", false),
+        };
+    }
     let inl = in_language(mt, &m.toks);
     match observe(mt, &m.toks) {
         // panics belong to C07 (totality); a rejected in-language mutant belongs to C03 (acceptance)
